@@ -144,9 +144,34 @@ def pixels_frame(px, cols=("count",), dtypes=None):
     return pd.DataFrame(d)
 
 
-def make_cooler(path, table, px, mode="symm", cols=("count",), names=None, **kw):
+def make_cooler(path, table, px, mode="symm", cols=("count",), names=None, mode_="w", **kw):
     import cooler
     cooler.create_cooler(path, bins_frame(table, names), pixels_frame(px, cols),
                          columns=list(cols) if tuple(cols) != ("count",) else None,
-                         ordered=True, symmetric_upper=(mode == "symm"), **kw)
+                         ordered=True, symmetric_upper=(mode == "symm"), mode=mode_, **kw)
     return path
+
+
+def split_uri(uri):
+    """(file path, group path) of a cooler URI written by place()."""
+    if "::" in uri:
+        f, g = uri.split("::", 1)
+        return f, g if g.startswith("/") else "/" + g
+    return uri, "/"
+
+
+def decoy_px(px):
+    """Different content on the same bins: every value + 1 (a reader that loses the group path returns THIS)."""
+    return [[p[0], p[1]] + [v + 1 for v in p[2:]] for p in px]
+
+
+def place(path, table, px, mode="symm", at=None, cols=("count",), names=None, **kw):
+    """Create the cooler of a case at the root of `path`, or - if `at` names a group - at path::at next to a DECOY
+    collection with other content at the root of the same file.  Returns the URI of the real collection."""
+    if not at or at == "/":
+        make_cooler(path, table, px, mode, cols, names, **kw)
+        return path
+    make_cooler(path, table, decoy_px(px), mode, cols, names, **kw)
+    uri = path + "::" + at
+    make_cooler(uri, table, px, mode, cols, names, mode_="a", **kw)
+    return uri
